@@ -307,6 +307,16 @@ def resolveTcp (t : TcpTable) (pairRemote localBase : Addr) : Option Addr :=
   | some e => some e.2
   | none => (t.find? (fun e => e.1 = localBase)).map (·.2)
 
+/-- `nudge_passive_tcp_nomination` (PeerConnection calls it whenever ICE is Connected / Completed): a controlled
+agent without a nomination completes it on the first registered TCP stream whose peer is a remote candidate
+(since the `fix:` commit; before, on the first stream whatever its peer). `t` = the stream table. -/
+def nudge (s : St) (t : TcpTable) : St :=
+  if s.role ≠ .controlled ∨ s.nominated.isSome then s
+  else
+    match t.find? (fun e => s.remotes.any (fun c => c.address = e.2)) with
+    | some e => tcpNominate s (.tcpStream e.1) e.2
+    | none => s
+
 /-! ### other consumers of STUN responses -/
 
 /-- `IceGatherer::probe_stun` (server-reflexive gathering): what it takes from the datagram it received for
